@@ -486,7 +486,13 @@ class PoolMetricsStream(Stream):
 # component data channels; a script varies the ORDER of status messages, first requests of the
 # metric streams, metric changes and batteries whose data stops / turns NaN.
 #
-# Case (JSON): {"pool": [battery ids], "init": {"<id>": D | None}, "script": [OP, ...]}
+# Case (JSON): {"pool": [battery ids], "init": {"<id>": D | None}, "script": [OP, ...], "producer": P}
+#   P  = how status messages are produced: "fresh" (a new ComponentPoolStatus per message), "mutate" (ONE
+#        ComponentPoolStatus object whose sets are mutated in place and which is re-sent, as the SDK's
+#        ComponentPoolStatusTracker does), "tracker" (the real ComponentPoolStatusTracker feeding the channel,
+#        driven through scripted per-battery status trackers: one message per battery whose status changes)
+#   a status OP may carry "uncertain": [ids]; ComponentPoolStatus.get_working_components falls back to the
+#   uncertain batteries when none of the pool's batteries is working
 #   D  = {"cap": V, "lo": V, "hi": V, "soc": V}      V = [num, den] | "nan"      (None = silent at start)
 #   OP = {"op": "status", "working": [ids]} | {"op": "request", "what": "soc" | "capacity"}
 #      | {"op": "data", "id": b, "d": D} | {"op": "silence", "id": b} | {"op": "resume", "id": b}
@@ -517,6 +523,10 @@ def _pool_imports():
     from frequenz.sdk._internal._channels import ChannelRegistry
     from frequenz.sdk.microgrid import connection_manager
     from frequenz.sdk.microgrid._power_distributing import ComponentPoolStatus
+    from frequenz.sdk.microgrid._power_distributing._component_pool_status_tracker import ComponentPoolStatusTracker
+    from frequenz.sdk.microgrid._power_distributing._component_status import (ComponentStatus, ComponentStatusEnum,
+                                                                             ComponentStatusTracker)
+    from frequenz.sdk.actor import BackgroundService
     from frequenz.sdk.microgrid.component_graph import _MicrogridComponentGraph
     from frequenz.sdk.timeseries.battery_pool import BatteryPool
     from frequenz.sdk.timeseries.battery_pool._battery_pool_reference_store import BatteryPoolReferenceStore
@@ -536,7 +546,8 @@ def snapshots(case):
     def apply(op):
         k = op["op"]
         if k == "status":
-            st["working"] = set(op["working"]) & set(case["pool"])
+            w = set(op["working"]) & set(case["pool"])
+            st["working"] = w if w else (set(op.get("uncertain", [])) - set(op["working"])) & set(case["pool"])
         elif k == "request":
             requested.add(op["what"])
         elif k == "data":
@@ -633,6 +644,38 @@ def run_pool(case):
 
         logs = {"soc": [], "capacity": []}
         tasks = [aio.create_task(streamer())]
+        producer = case.get("producer", "fresh")
+        shared = I.ComponentPoolStatus(working=set(), uncertain=set())      # "mutate": the one object that is re-sent
+        pst, scripted, state = None, {}, {}
+        if producer == "tracker":
+            class Scripted(I.ComponentStatusTracker, I.BackgroundService):  # per-battery tracker the script speaks through
+                def __init__(self, component_id, max_data_age, max_blocking_duration, status_sender, set_power_result_receiver):
+                    I.BackgroundService.__init__(self, name=f"scripted-{component_id}")
+                    self.sender = status_sender
+                    scripted[component_id] = self
+
+                def start(self):
+                    pass
+            pst = I.ComponentPoolStatusTracker(component_ids=set(pool_ids), component_status_sender=status_tx,
+                                               max_data_age=I.timedelta(seconds=10), max_blocking_duration=I.timedelta(seconds=30),
+                                               component_status_tracker_type=Scripted)
+            await aio.sleep(0)
+
+        async def send_status(op):
+            w, u = set(op["working"]), set(op.get("uncertain", [])) - set(op["working"])
+            if producer == "fresh":
+                await status_tx.send(I.ComponentPoolStatus(working=set(w), uncertain=set(u)))
+            elif producer == "mutate":
+                shared.working.clear(); shared.working.update(w)
+                shared.uncertain.clear(); shared.uncertain.update(u)
+                await status_tx.send(shared)
+            else:
+                E = I.ComponentStatusEnum
+                for b in pool_ids:
+                    want = E.WORKING if b in w else (E.UNCERTAIN if b in u else E.NOT_WORKING)
+                    if state.get(b, E.NOT_WORKING) != want:
+                        state[b] = want
+                        await scripted[b].sender.send(I.ComponentStatus(b, want))
 
         async def collect(what, rx):
             async for smp in rx:
@@ -646,7 +689,7 @@ def run_pool(case):
             async def do(op):
                 k = op["op"]
                 if k == "status":
-                    await status_tx.send(I.ComponentPoolStatus(working=set(op["working"]), uncertain=set()))
+                    await send_status(op)
                 elif k == "request":
                     if not any(t.get_name() == op["what"] for t in tasks):
                         fetcher = pool.soc if op["what"] == "soc" else pool.capacity
@@ -681,6 +724,8 @@ def run_pool(case):
             for t in tasks:
                 t.cancel()
             await aio.gather(*tasks, return_exceptions=True)
+            if pst is not None:
+                await pst.stop()
             await store.stop()
         return {"checkpoints": checkpoints, "emitted": {w: len(v) for w, v in logs.items()}}
 
@@ -706,6 +751,7 @@ def gen_pool_case(rng):
         return d
     init = {str(b): (None if rng.random() < 0.1 else gen_d(rng.random() < 0.5)) for b in pool}
     subset = lambda: sorted(b for b in pool if rng.random() < 0.65)
+    producer = rng.choice(["fresh", "mutate", "mutate", "tracker", "tracker"])
     script = []
     # the order of the first status and the first requests is the point: draw their positions freely
     core = [{"op": "request", "what": "soc"}, {"op": "request", "what": "capacity"}]
@@ -766,10 +812,28 @@ def gen_pool_case(rng):
     if rng.random() < 0.3:  # sometimes drop one of the requests / move it to the very end
         i = next(k for k, o in enumerate(script) if o["op"] == "request")
         script.append(script.pop(i))
-    return {"pool": pool, "init": init, "script": script}
+    def add_uncertain(ops):
+        for o in ops:
+            if o["op"] == "burst":
+                add_uncertain(o["ops"])
+            elif o["op"] == "status" and rng.random() < 0.15:
+                o["uncertain"] = sorted(b for b in pool if b not in o["working"] and rng.random() < 0.6)
+                if rng.random() < 0.5:
+                    o["working"] = []
+    add_uncertain(script)
+    return {"pool": pool, "init": init, "script": script, "producer": producer}
 
 
 def pool_boundary_cases():
+    out = []
+    for c in _pool_boundary_cases():
+        for producer in ("fresh", "mutate", "tracker"):
+            if producer == "fresh" or any(o["op"] in ("status", "burst") for o in c["script"]):
+                out.append({**c, "producer": producer})
+    return out
+
+
+def _pool_boundary_cases():
     D = lambda cap, lo, hi, soc: {"cap": enc(F(cap)), "lo": enc(F(lo)), "hi": enc(F(hi)), "soc": enc(F(soc))}
     init = {"5": D(1000, 10, 90, 50), "8": D(3000, 10, 90, 90)}
     R = lambda w: {"op": "request", "what": w}
@@ -884,7 +948,10 @@ class PoolIntegrationStream(Stream):
         flat = lambda ops: [x for o in ops for x in ([o] if o["op"] != "burst" else flat(o["ops"]))]
         nb = [o for o in case["script"] if o["op"] == "burst"]
         sc = flat(case["script"])
-        out = [f"pool_size={len(case['pool'])}", f"steps={len(case['script'])}"]
+        out = [f"pool_size={len(case['pool'])}", f"steps={len(case['script'])}", f"status_producer={case.get('producer', 'fresh')}"]
+        out.append(f"status_messages={min(sum(1 for o in sc if o['op'] == 'status'), 5)}")
+        if any(o["op"] == "status" and o.get("uncertain") for o in sc):
+            out.append("status_with_uncertain")
         if nb:
             out.append("status_burst")
             if any(x["op"] == "request" for o in nb for x in o["ops"]):
@@ -922,9 +989,13 @@ class PoolIntegrationStream(Stream):
                 for j in range(len(o["ops"])):
                     if len(o["ops"]) > 1:
                         yield {**case, "script": sc[:i] + [{**o, "ops": o["ops"][:j] + o["ops"][j + 1:]}] + sc[i + 1:]}
+        if case.get("producer", "fresh") == "tracker":
+            yield {**case, "producer": "mutate"}
         for b in case["pool"]:
             if len(case["pool"]) > 1:
-                yield {"pool": [x for x in case["pool"] if x != b],
+                yield {"producer": case.get("producer", "fresh"), "pool": [x for x in case["pool"] if x != b],
                        "init": {k: v for k, v in case["init"].items() if int(k) != b},
-                       "script": [({**o, "working": [x for x in o["working"] if x != b]} if o["op"] == "status" else o)
+                       "script": [({**o, "working": [x for x in o["working"] if x != b],
+                                    **({"uncertain": [x for x in o["uncertain"] if x != b]} if "uncertain" in o else {})}
+                                   if o["op"] == "status" else o)
                                   for o in sc if o.get("id") != b]}
